@@ -167,7 +167,7 @@ class C13(Spec):
             x = stream_from_runs(first, lengths)
         mode = mode or rng.choice(['plain', 'pd2'])
         if s0 is None:
-            s0 = rng.choice([0, 100, -5, 7, 12345])
+            s0 = rng.choice([0, 100, -5, 7, 12345, 2 ** 31 - 3, 2 ** 31 + 11, 2 ** 32 + 5, 2 ** 40])   # incl. beyond 32 bits
         if mode == 'plain':
             s0 = 0
         c = {'kind': 'stream', 'm': m, 'init': int(init), 's0': s0, 'detect': detect or rng.choice('bbrf'),
